@@ -71,6 +71,9 @@ type c05Case struct {
 	Bonded  string     `json:"bonded_tokens"`     // bond-denom tokens placed in the bonded pool
 	Extra   string     `json:"extra_bond_supply"` // bond-denom tokens minted to a bystander
 	Prefund string     `json:"module_prefund"`    // mint-denom coins sitting in the inflation module account beforehand
+	// PrefundForeign: coins of ANOTHER denomination ("foreigncoin") sitting in the inflation module account beforehand
+	// (a genesis balance): the first enabled epoch end must sweep them into the community pool with everything else
+	PrefundForeign string `json:"module_prefund_foreign,omitempty"`
 	Ops     []c05Op    `json:"ops"`
 }
 
@@ -217,6 +220,8 @@ func (e *Env) c05GenSplit() (string, string) {
 	}
 	return st.String(), new(big.Int).Sub(c05S, st).String()
 }
+
+const c05ForeignDenom = "foreigncoin"
 
 type c05Obs struct {
 	params                                 inflationtypes.Params
@@ -395,6 +400,11 @@ func c05RunHistories(e *Env, suite string) {
 		c05Mint(a, ctx, bondDenom, bigOf(kase.Bonded), stakingtypes.BondedPoolName, nil)
 		c05Mint(a, ctx, bondDenom, bigOf(kase.Extra), "", bystander)
 		c05Mint(a, ctx, kase.Denom, bigOf(kase.Prefund), inflationtypes.ModuleName, nil)
+		foreign := big.NewInt(0)
+		if kase.PrefundForeign != "" && kase.Denom != c05ForeignDenom {
+			foreign = bigOf(kase.PrefundForeign)
+			c05Mint(a, ctx, c05ForeignDenom, foreign, inflationtypes.ModuleName, nil)
+		}
 		genOracle := c05OracleTerm(a, ctx, kase.Denom)
 		inflation.InitGenesis(ctx, a.InflationKeeper, a.AccountKeeper, a.StakingKeeper, inflationtypes.GenesisState{
 			Params: c05ToParams(kase.Denom, kase.Params), Period: kase.Period, EpochIdentifier: kase.Ident,
@@ -495,6 +505,22 @@ func c05RunHistories(e *Env, suite string) {
 					case o.supply.Cmp(prev.supply) != 0:
 						e.Stats.Count("block:minted")
 						nontrivial = true
+						// "the inflation module account is left empty": of every denomination, and what it held went to the community pool
+						if left := a.BankKeeper.GetAllBalances(ctx, a.AccountKeeper.GetModuleAddress(inflationtypes.ModuleName)); !left.IsZero() {
+							e.Stats.ImplFailures = append(e.Stats.ImplFailures, ImplFailure{Case: c, Step: i, Monitor: "module-account-not-empty-after-epoch-end",
+								Detail: "after an enabled epoch end the inflation module account still holds " + left.String()})
+						}
+						if foreign.Sign() > 0 {
+							e.Stats.Count("block:minted-with-foreign-coins-in-the-module-account")
+							fp, err := a.DistrKeeper.FeePool.Get(ctx)
+							if err != nil {
+								panic(err)
+							}
+							if got := fp.CommunityPool.AmountOf(c05ForeignDenom).TruncateInt().BigInt(); got.Cmp(foreign) != 0 {
+								e.Stats.ImplFailures = append(e.Stats.ImplFailures, ImplFailure{Case: c, Step: i, Monitor: "module-account-not-empty-after-epoch-end",
+									Detail: fmt.Sprintf("the community pool holds %s %s, the module account held %s before the epoch end", got, c05ForeignDenom, foreign)})
+							}
+						}
 						if o.period != prev.period {
 							e.Stats.Count("block:period-advanced")
 						}
@@ -707,6 +733,10 @@ func c05GenCase(e *Env, suite string, kase *c05Case, day int64) {
 	if e.Chance(0.3) {
 		kase.Prefund = e.Mag(80).String()
 		e.Stats.Count("module-prefunded")
+	}
+	if e.Chance(0.25) {
+		kase.PrefundForeign = new(big.Int).Add(e.Mag(60), big.NewInt(1)).String()
+		e.Stats.Count("module-prefunded-with-another-denomination")
 	}
 }
 
